@@ -172,6 +172,58 @@ theorem native_sign_wrapper_recovers (cr : Crypto) (msg raw : Bytes) (hlen : raw
 
 example : nativeSignBytes (List.replicate 64 1 ++ [1]) = List.replicate 64 1 ++ [28] := by decide
 
+/-! ## the per-object sender cache of `eth_tx.Sender` -/
+
+/-- the cache invariant: what is cached is what the cached signer derives -/
+def CacheOK (cr : Crypto) (e : EthTx) : Option SigCache → Prop
+  | none => True
+  | some sc => ethSender cr sc.chainId e = some sc.sender
+
+theorem senderCached_spec (cr : Crypto) (e : EthTx) (cache : Option SigCache) (c : Nat)
+    (hc : CacheOK cr e cache) :
+    (senderCached cr cache c e).1 = ethSender cr c e ∧ CacheOK cr e (senderCached cr cache c e).2 := by
+  have hderive : ∀ cache', CacheOK cr e cache' →
+      ((match ethSender cr c e with
+        | none => ((none : Option Bytes), cache')
+        | some a => (some a, some ⟨c, a⟩)).1 = ethSender cr c e) ∧
+      CacheOK cr e (match ethSender cr c e with
+        | none => ((none : Option Bytes), cache')
+        | some a => (some a, some ⟨c, a⟩)).2 := by
+    intro cache' hc'
+    cases hs : ethSender cr c e with
+    | none => exact ⟨rfl, hc'⟩
+    | some a => exact ⟨rfl, hs⟩
+  unfold senderCached
+  cases cache with
+  | none => exact hderive none hc
+  | some sc =>
+    by_cases heq : sc.chainId = c
+    · simp only [heq, ↓reduceIte]
+      subst heq
+      exact ⟨hc.symm, hc⟩
+    · simp only [heq, ↓reduceIte]
+      exact hderive (some sc) hc
+
+/-- **The cache is transparent**: any sequence of `Sender` calls on one transaction object, with
+    signers of any chain ids in any order, returns what the uncached derivation returns — the
+    address cached for one chain id is never handed out for another (the failure class of the
+    seeded regression C07-c, there one level up). -/
+theorem sender_cache_transparent (cr : Crypto) (e : EthTx) (cs : List Nat) :
+    senderRun cr e none cs = cs.map (fun c => ethSender cr c e) := by
+  have gen : ∀ (cache : Option SigCache), CacheOK cr e cache →
+      senderRun cr e cache cs = cs.map (fun c => ethSender cr c e) := by
+    induction cs with
+    | nil => intro _ _; rfl
+    | cons c rest ih =>
+      intro cache hc
+      obtain ⟨h1, h2⟩ := senderCached_spec cr e cache c hc
+      simp only [senderRun, List.map_cons, h1]
+      rw [ih _ h2]
+  exact gen none True.intro
+
+example : senderRun toyCrypto toyEth155 none [9, 10, 9] =
+    [some (List.replicate 20 1), none, some (List.replicate 20 1)] := by decide
+
 /-! ## admission flags (the function the `batch` stream compares with the real handlers) -/
 
 theorem admitFlags_length (cr : Crypto) (cfg : ChainCfg) (h : Nat) (have_ : List Bytes) (txs : List Tx) :
